@@ -3,6 +3,7 @@ package main
 import (
 	"context"
 	"fmt"
+	"io"
 	"sync"
 	"time"
 
@@ -140,6 +141,99 @@ func c05TrailerHeaders(r *Run) {
 			cc.Close()
 			within(hangTimeout, func() { <-served })
 			hooks.Reset(false)
+		}
+	}
+}
+
+// c05SlowHandler: a client-streaming / bidi handler that pauses between its receives (tens of
+// milliseconds) while the caller keeps sending, then reads on while more messages arrive. However the
+// server parks what the handler is not ready for, the handler receives the call's messages in the order
+// they were sent, and the half-close after the last of them.
+func c05SlowHandler(r *Run) {
+	if !r.Want("slowhandler") {
+		return
+	}
+	for rep, reps := 0, r.Scale(2, 16); rep < reps && r.NumViolations() <= 4; rep++ {
+		for _, method := range []string{mCliStream, mBidi} {
+			in := map[string]any{"method": method, "rep": rep, "handler": "reads 1, pauses 80ms, reads 2, then reads on with 10ms pauses", "caller": "sends 1..4 at once, 5 and 6 when the handler has taken 2, then half-closes"}
+			r.Progress("slowhandler", in)
+			rig := NewRig(RigOpt{Serialise: rep%2 == 0})
+			var got [][]byte
+			took2 := make(chan struct{})
+			hdone := make(chan error, 1)
+			rig.Impl.SetStream(func(m string, ss grpc.ServerStream) error {
+				n := 0
+				for {
+					b, err := recvB(ss)
+					if err != nil {
+						if err == io.EOF {
+							hdone <- nil
+							if m == mCliStream {
+								return sendB(ss, []byte("sum"))
+							}
+							return nil
+						}
+						hdone <- err
+						return err
+					}
+					got = append(got, b)
+					n++
+					switch n {
+					case 1:
+						time.Sleep(80 * time.Millisecond)
+					case 2:
+						close(took2)
+						time.Sleep(10 * time.Millisecond)
+					default:
+						time.Sleep(10 * time.Millisecond)
+					}
+				}
+			})
+			var want [][]byte
+			ok := within(3*hangTimeout, func() {
+				ctx, cancel := context.WithTimeout(context.Background(), 2*hangTimeout)
+				defer cancel()
+				cs, err := rig.CC.NewStream(ctx, descOf(method), method)
+				if err != nil {
+					return
+				}
+				send := func(i int) {
+					p := []byte(fmt.Sprintf("m%d", i))
+					if sendB(cs, p) == nil {
+						want = append(want, p)
+					}
+				}
+				for i := 1; i <= 4; i++ {
+					send(i)
+				}
+				select {
+				case <-took2:
+				case <-time.After(hangTimeout):
+				}
+				send(5)
+				send(6)
+				cs.CloseSend()
+				for {
+					if _, err := recvB(cs); err != nil {
+						break
+					}
+				}
+				select {
+				case <-hdone:
+				case <-time.After(hangTimeout):
+				}
+			})
+			r.Eval(fmt.Sprintf("slowhandler/%s/%d", method, rep), true)
+			r.Count("c05.slowhandler")
+			if !ok {
+				r.Violate("slowhandler.hang", "history", "the stream did not finish", in, goroutineDump(), nil)
+			} else if !seqEqual(got, want) {
+				r.Violate("slowhandler.order", "history", "a slow handler did not receive its call's messages in the order they were sent (or lost the ones before the half-close)", in, seqStr(got), seqStr(want))
+			}
+			rig.Close()
+			if !ok {
+				return
+			}
 		}
 	}
 }
